@@ -627,3 +627,100 @@ def prefix_detect(ctx):
         ctx.require(f == 'wif_protected', q, 'a 58-character string starting %s is classified %s, not as a BIP38 key' % (pre, f if not isinstance(f, seg.Dep) else 'depending on its other characters'), fn,
                     'keys with lot / sequence and the compression flag (6Po..., the default output of bip38_create_new_encrypted_wif for such an intermediate code) cannot be imported with the right passphrase')
     ctx.floor(n, 6, 'BIP38 prefixes')
+
+
+def _fold_bytes(t):
+    """bytes value of a layout term made of constants only (concatenations, fixed-width integers); the term itself otherwise"""
+    if isinstance(t, bytes):
+        return t
+    if isinstance(t, tuple) and t and t[0] == 'cat':
+        parts = [_fold_bytes(x) for x in t[1]]
+        return b''.join(parts) if all(isinstance(x, bytes) for x in parts) else t
+    if isinstance(t, tuple) and len(t) == 4 and t[0] == 'int2bytes' and isinstance(t[1], int) and isinstance(t[2], int) and t[3] in ('big', 'little'):
+        try:
+            return t[1].to_bytes(t[2], t[3])
+        except OverflowError:
+            return t
+    return t
+
+
+@PROP.obligation('C15.lot-sequence-field', canaries=[
+    mut.replace_expr('keys', 'bip38_intermediate_password', 'lot * 4096 + sequence', '((lot & 0x7ffff) << 12) | (sequence & 0xfff)', 'the lot number is masked to 19 bits'),
+    mut.replace_expr('keys', 'bip38_intermediate_password', 'lot * 4096 + sequence', 'lot * 4095 + sequence', 'lot multiplied by 4095'),
+])
+def lot_sequence_field(ctx):
+    """BIP38 packs lot and sequence into four bytes as lot * 4096 + sequence (20 + 12 bits, big endian) after the first four bytes of the
+    owner salt. The expression that builds owner_entropy in bip38_intermediate_password is evaluated for lots across the whole accepted
+    range 100000 .. 999999 - below and above 2^19 = 524288 - and sequences 0, 1, 4095: the eight bytes are salt[:4] followed by that
+    number. A narrower mask makes lot 806938 (the lot of the BIP38 document's second vector) collide with lot 282650."""
+    q = 'keys:bip38_intermediate_password'
+    fn = ctx.repo.func(q)
+    asg = [a for a in ast.walk(fn) if isinstance(a, ast.Assign) and any(norm(t) == 'owner_entropy' for t in a.targets) and 'lot' in norm(a.value) and 'sequence' in norm(a.value)]
+    if len(asg) != 1:
+        ctx.undecided('bip38_intermediate_password: %d assignments build owner_entropy from lot and sequence, expected 1' % len(asg))
+    salt = bytes(range(0xa0, 0xa8))
+    n = 0
+    for lot in (100000, 263183, 524287, 524288, 806938, 999999):
+        for seq in (0, 1, 4095):
+            it = Interp(ctx.repo, 'keys')
+            st = State(env={'lot': lot, 'sequence': seq, 'owner_salt': salt})
+            try:
+                got = it.eval(asg[0].value, st)
+            except AnalysisError as e:
+                ctx.undecided('bip38_intermediate_password: owner_entropy not evaluable for lot %d / sequence %d: %s' % (lot, seq, str(e)[:80]))
+            exp = salt[:4] + (lot * 4096 + seq).to_bytes(4, 'big')
+            n += 1
+            got = _fold_bytes(term(got) if isinstance(got, S) else got)
+            if got != exp:
+                gv = got.hex() if isinstance(got, bytes) else (show(got)[:60] if isinstance(got, tuple) else repr(got))
+                ctx.violate(q, 'lot %d, sequence %d: owner entropy is %s, BIP38 prescribes %s (salt[:4] + BE32(lot * 4096 + sequence))' % (lot, seq, gv, exp.hex()), asg[0],
+                            'the intermediate code of lot 806938 carries lot 282650: keys made from it do not match the BIP38 document and decryption reports the wrong lot')
+                break
+    ctx.saw('%d (lot, sequence) pairs evaluated through `%s`' % (n, norm(asg[0].value)[:70]))
+    ctx.floor(n, 6, '(lot, sequence) pairs')
+
+
+@PROP.obligation('C15.decrypt-witness-forwarded', canaries=[
+    mut.Canary('the command line wallet tool checks a BIP38 key against the default witness type', 'tools.clw', lambda tree: _drop_last_arg(tree, 'create_wallet', '_bip38_decrypt')),
+    mut.Canary('HDKey() checks a BIP38 key against the default witness type', 'keys', lambda tree: _drop_last_arg(tree, '__init__', '_bip38_decrypt', cls='HDKey')),
+])
+def decrypt_witness_forwarded(ctx):
+    """HDKey._bip38_decrypt(key, password, network, witness_type) verifies the decrypted key against the 4-byte address hash inside the BIP38
+    string, and WHICH address that is follows the witness type (a standard BIP38 key carries the hash of the legacy P2PKH address). Every
+    call of it in the package - HDKey.__init__ and the command line wallet tool - hands over the witness type the caller was given, as
+    fourth argument or keyword: with the default ('segwit') the right passphrase of a standard key is refused as wrong."""
+    n = 0
+    for modname, m in sorted(ctx.repo.modules.items()):
+        for name, fn in sorted(m.functions.items()):
+            for c in walk_no_nested(fn):
+                if not (isinstance(c, ast.Call) and isinstance(c.func, ast.Attribute) and c.func.attr == '_bip38_decrypt'):
+                    continue
+                base = norm(c.func.value)
+                cls = name.split('.')[0] if '.' in name else None
+                is_hd = base == 'HDKey' or (base in ('self', 'cls') and cls == 'HDKey')
+                if not is_hd:
+                    continue
+                q = '%s:%s' % (modname, name)
+                n += 1
+                wt = c.args[3] if len(c.args) > 3 else next((k.value for k in c.keywords if k.arg == 'witness_type'), None)
+                ctx.saw('%s: HDKey._bip38_decrypt(...) witness_type=%s' % (q, norm(wt) if wt is not None else None))
+                ctx.require(wt is not None and 'witness_type' in norm(wt), q, '`%s` does not hand the witness type on (fourth argument: %s)' % (norm(c)[:70], norm(wt) if wt is not None else 'missing'), c,
+                            "clw new -w NAME -c <standard BIP38 key> --password <right passphrase> -j legacy is rejected with 'Addresshash verification failed': the key cannot be recovered although the passphrase is right")
+    ctx.floor(n, 2, 'calls of HDKey._bip38_decrypt')
+
+
+def _drop_last_arg(tree, fname, callee, cls=None):
+    for top in tree.body:
+        fns = []
+        if isinstance(top, ast.FunctionDef) and cls is None:
+            fns = [top]
+        elif isinstance(top, ast.ClassDef) and top.name == cls:
+            fns = [f for f in top.body if isinstance(f, ast.FunctionDef)]
+        for f in fns:
+            if f.name != fname:
+                continue
+            for c in ast.walk(f):
+                if isinstance(c, ast.Call) and isinstance(c.func, ast.Attribute) and c.func.attr == callee and len(c.args) > 3:
+                    c.args = c.args[:3]
+                    return True
+    return False
